@@ -37,6 +37,31 @@ func oracle(c, res string) string {
 			return "Build is not deterministic"
 		}
 		return c04c16.CheckNames(s)
+	case "rebuild":
+		// the same decompiled program built repeatedly (Build x3, acc.String, acc.Write): every
+		// script must satisfy the property, and the program's chain must not be disturbed
+		q, err := acc.Decompile(p)
+		if err != nil {
+			return "Decompile: " + err.Error()
+		}
+		r, msg := c04c16.Rebuild(q)
+		if r == nil {
+			return "rebuilding failed: " + msg
+		}
+		for k, s := range r.Trees {
+			if m := c04c16.CheckNames(s); m != "" {
+				return fmt.Sprintf("build %d of the same program: %s", k+1, m)
+			}
+		}
+		if msg != "" {
+			return msg
+		}
+		if !lib.EqualInts(r.Chain, vals) {
+			return "building changed the chain values of the program"
+		}
+		if c04c16.EncodeAST(r.Trees[0]) != payload {
+			return "Build is not deterministic"
+		}
 	case "names":
 		// identifiers the passes attach to operands: each one describes the element at its index
 		if payload == "-" {
@@ -77,7 +102,8 @@ func oracle(c, res string) string {
 func main() {
 	lib.Main(lib.Prop{
 		ID:     "C16",
-		Gen:    c04c16.Gen([]string{"build", "names"}),
+		Gen:    c04c16.Gen([]string{"build", "names"}, []string{"rebuild"}),
+		Neighbours: c04c16.Neighbours,
 		Run:    c04c16.Run,
 		Oracle: oracle,
 		Nontrivial: func(c, res string) bool {
